@@ -30,7 +30,7 @@ func runC06(r *Run) error {
 	defer closeEnv()
 	hists := 12
 	if r.Tier == "thorough" {
-		hists = 150
+		hists = 600
 	}
 	pool := []string{"a", "b", "k1", "", "ключ", "K1", "x/y"}
 	vals := [][]byte{[]byte("v1"), []byte("v2"), {}, {0, 255, 1}, []byte("долго"), []byte("v3")}
